@@ -5,14 +5,12 @@
                        `TaprootCommitmentEnv::Description()` debugger/interpreter.cpp:69-78);
   * `markerIndex`   — `fn_print` marks line `env->curr_op_seq` with `" -> "` (functions.cpp:415-418) and
                        `fn_step` / `fn_rewind` echo `script_lines[env->curr_op_seq]` (functions.cpp:15-33);
-  * `fnStep`        — `fn_step` including what a FAILED operation leaves behind: `StepScript(env, pc)`
-                       receives `env.pc` by reference, `GetOp` has advanced it, and the failure path of
-                       `StepScript(InterpreterEnv&)` (interpreter.cpp:153-164) pops the history entries
-                       but restores neither `pc` nor anything else.
+  * `fnStep`        — `fn_step` including a FAILED operation: `StepScript(InterpreterEnv&)` restores the
+                       state saved before the step (interpreter.cpp:153-183), so a failed step leaves the
+                       session exactly where it was.
 
   A line records the section it belongs to, the byte offset of the instruction inside the script of that
-  section, and its text (opcode name or push data in hex) exactly as the C++ renders it, including the
-  cut of long hex strings by `snprintf`.
+  section, and its text (opcode name or push data in hex) exactly as the C++ renders it.
 -/
 import Btcdeb.Model.Session
 namespace Btcdeb.Model
@@ -24,11 +22,11 @@ inductive Sect where
 deriving Repr, DecidableEq
 
 inductive LineKind where
-  /-- an instruction decoded from script bytes: numbered, text possibly cut -/
+  /-- an instruction decoded from script bytes: numbered -/
   | op
   /-- a line of `TaprootCommitmentEnv::Description()`: numbered -/
   | desc
-  /-- a section header (`script_headers`): neither numbered nor cut -/
+  /-- a section header (`script_headers`): not numbered -/
   | header
 deriving Repr, DecidableEq
 
@@ -55,7 +53,7 @@ decreasing_by exact getOp_rest_lt h
 /-- `GetOpName(opcode)` (generated from the implementation's table) -/
 def opNameOf (opcode : Nat) : String := Gen.opName.getD opcode "OP_UNKNOWN"
 
-/-- the text of an instruction when nothing is cut: push data in hex (`HexStr`) when there is any,
+/-- the text of an instruction: push data in hex (`HexStr`) when there is any,
     otherwise the opcode name (btcdeb.cpp:343-347) -/
 def opText (g : GotOp) : String :=
   if g.data.length > 0 then toHex g.data else opNameOf g.opcode
@@ -68,22 +66,13 @@ def pad4 (n : Nat) : List Char :=
 /-- `"#%04d "` -/
 def numberPrefix (i : Nat) : List Char := '#' :: pad4 i ++ [' ']
 
-/-- btcdeb.cpp:341-347: `pbuf += snprintf(pbuf, 1024, "#%04d ", i); snprintf(pbuf, 1024 + pbuf - buf, "%s", text)`.
-    The size argument is `1024 + (pbuf - buf)` (not `1024 - (pbuf - buf)`), so at most
-    `1023 + |prefix|` characters of the text are stored — into a buffer with room for `1023 - |prefix|`.
-    (Texts longer than that overrun `buf[1024]` by up to `2·|prefix|` bytes: undefined behaviour, not
-    represented here; the model gives the string that `strdup(buf)` then copies.) -/
-def cutLimit (i : Nat) : Nat := 1023 + (numberPrefix i).length
-
-def cutText (i : Nat) (s : String) : String := String.ofList (s.toList.take (cutLimit i))
-
 /-- `script_lines[i]` as printed -/
 def Line.render (i : Nat) (l : Line) : String :=
   match l.kind with
   | .header => l.text
   | _ => String.ofList (numberPrefix i) ++ l.text
 
-/-- the lines of one script (uncut) -/
+/-- the lines of one script -/
 def opLines (sect : Sect) (s : Bytes) : List Line :=
   (decodeFrom s).map (fun p => { sect := sect, kind := .op, offset := s.length - p.1, text := opText p.2 })
 
@@ -99,56 +88,56 @@ def Tce.node (t : Tce) (i : Nat) : Bytes :=
 def branchLine (t : Tce) (i : Nat) : Line :=
   { sect := .commitment, kind := .desc, offset := Gen.TAPROOT_CONTROL_BASE_SIZE + Gen.TAPROOT_CONTROL_NODE_SIZE * i,
     text := "Branch: " ++ toHex (t.node i) }
-def tweakLine (t : Tce) : Line :=
-  { sect := .commitment, kind := .desc, offset := 1, text := "Tweak: " ++ toHex t.p }
-def checkLine : Line :=
-  { sect := .commitment, kind := .desc, offset := 0, text := "CheckTapTweak" }
+def checkLine (t : Tce) : Line :=
+  { sect := .commitment, kind := .desc, offset := 1, text := "CheckTapTweak: " ++ toHex t.p }
 
-/-- `TaprootCommitmentEnv::Description()`: one `Branch:` line per path node, then `Tweak:` and
-    `CheckTapTweak` — `m_path_len + 2` lines (interpreter.cpp:69-78) -/
+/-- `TaprootCommitmentEnv::Description()`: one `Branch:` line per path node, then one line
+    `CheckTapTweak: <internal key>` — one line per `Iterate()` call (interpreter.cpp:69-78) -/
 def Tce.description (t : Tce) : List Line :=
-  (List.range t.pathLen).map (branchLine t) ++ [tweakLine t, checkLine]
+  (List.range t.pathLen).map (branchLine t) ++ [checkLine t]
 
-/-- push value of the last instruction of `s` (`p2sh_script_payload`, btcdeb.cpp:294): empty when the
-    script has no instruction or the last one carries no data -/
+/-- what an instruction of a scriptSig leaves on top of the stack (btcdeb.cpp:294-300): its push data;
+    the one-byte number for `OP_1 … OP_16`; `0x81` for `OP_1NEGATE` -/
+def payloadOf (g : GotOp) : Bytes :=
+  if Op.OP_1 ≤ g.opcode && g.opcode ≤ Op.OP_16 then [UInt8.ofNat (g.opcode - (Op.OP_1 - 1))]
+  else if g.opcode == Op.OP_1NEGATE then [0x81]
+  else g.data
+
+/-- `p2sh_script_payload` (btcdeb.cpp:294-300): the payload of the last instruction of `s`; empty when
+    the script has no instruction -/
 def lastPayload (s : Bytes) : Bytes :=
   match (decodeFrom s).getLast? with
-  | some p => p.2.data
+  | some p => payloadOf p.2
   | none => []
 
-/-- the listing before the texts are cut: sections in the order of `script_ptrs` (btcdeb.cpp:286-325).
+/-- the redeem script is on the initial stack (a session started on a P2SH-pattern script): btcdeb.cpp:304 -/
+def viaStack (e : IEnv) : Bool := e.isP2sh && !e.p2shStack.isEmpty
+
+/-- the scriptPubKey of a legacy spend pays to a script hash: btcdeb.cpp:319 -/
+def viaSucc (e : IEnv) : Bool := !e.successor.isEmpty && hasFlag e.see.flags Flag.P2SH && isPayToScriptHash e.successor
+
+/-- the commitment section (btcdeb.cpp:304-312, 335-339): `Description()`, for a tapscript session that is not
+    at the same time started on a P2SH-pattern script with a stack.
     (`sigversion == TAPSCRIPT` without a commitment environment does not occur: `configure_tx_txin` sets both
     together; the C++ would dereference a null pointer, the model lists no commitment line.) -/
-def rawListing (e : IEnv) : List Line :=
-  -- btcdeb.cpp:299-307
-  let viaStack := e.isP2sh && !e.p2shStack.isEmpty
-  let tcDesc : List Line :=
-    if viaStack then []
-    else if e.see.sigversion == .TAPSCRIPT then (match e.tce with | some t => t.description | none => [])
-    else []
-  -- btcdeb.cpp:308-318
-  let viaSucc := !e.successor.isEmpty && hasFlag e.see.flags Flag.P2SH && isPayToScriptHash e.successor
-  let hasP2sh := viaStack || viaSucc
-  let p2shScript : Bytes := if viaSucc then lastPayload e.see.script else e.p2shStack.getLast?.getD []
-  -- btcdeb.cpp:330-350
-  (if e.see.sigversion == .TAPSCRIPT then tcDesc else []) ++
-  opLines .main e.see.script ++
-  (if !e.successor.isEmpty then spkHeader :: opLines .scriptPubKey e.successor else []) ++
-  (if hasP2sh then p2shHeader :: opLines .p2sh p2shScript else [])
+def commitLines (e : IEnv) : List Line :=
+  if e.see.sigversion == .TAPSCRIPT && !viaStack e then (match e.tce with | some t => t.description | none => []) else []
 
-/-- the cut applied to instruction lines (their position in the listing determines the number and so
-    the length of the prefix) -/
-def cutLine (i : Nat) (l : Line) : Line :=
-  match l.kind with
-  | .op => { l with text := cutText i l.text }
-  | _ => l
+/-- the scriptPubKey section (btcdeb.cpp:313-318) -/
+def spkSection (e : IEnv) : List Line :=
+  if !e.successor.isEmpty then spkHeader :: opLines .scriptPubKey e.successor else []
 
-def cutAll : Nat → List Line → List Line
-  | _, [] => []
-  | i, l :: ls => cutLine i l :: cutAll (i + 1) ls
+/-- the P2SH section (btcdeb.cpp:304-308, 319-331): the redeem script is the top of the initial stack, or — for a
+    P2SH scriptPubKey — what the last instruction of the scriptSig leaves on the stack -/
+def p2shSection (e : IEnv) : List Line :=
+  if viaStack e || viaSucc e then
+    p2shHeader :: opLines .p2sh (if viaSucc e then lastPayload e.see.script else e.p2shStack.getLast?.getD [])
+  else []
 
-/-- `script_lines` (without the numbers; `Line.render` adds them); `count` is its length -/
-def buildListing (e : IEnv) : List Line := cutAll 0 (rawListing e)
+/-- `script_lines` (without the numbers; `Line.render` adds them), `count` is its length: sections in the
+    order of `script_ptrs` (btcdeb.cpp:286-350) -/
+def buildListing (e : IEnv) : List Line :=
+  commitLines e ++ opLines .main e.see.script ++ spkSection e ++ p2shSection e
 
 /-- `fn_print`: the line marked `" -> "` is number `env->curr_op_seq` -/
 def markerIndex (e : IEnv) : Int := e.currOpSeq
@@ -158,46 +147,17 @@ def markedLine (listing : List Line) (e : IEnv) : Option Line :=
   if e.currOpSeq < 0 then none else listing[e.currOpSeq.toNat]?
 
 /-- the echo of `fn_step` / `fn_rewind`: `if (env->curr_op_seq < count) printf(script_lines[env->curr_op_seq])`.
-    A negative index reads before the array (undefined behaviour; shown here as "no line").  In histories
-    without a failed step `curr_op_seq` is never negative (`C12_marker_histories`); after a step that failed
-    with an exception a rewind can make it negative (`fnStep`), and the real debugger then dies. -/
+    (A negative index would read before the array; `curr_op_seq` is never negative: `C12_marker_histories`.) -/
 def echoLine (listing : List Line) (e : IEnv) : Option String :=
   (markedLine listing e).map (Line.render e.currOpSeq.toNat)
 
-/-- where a `GetScriptOp` call that returns false leaves the iterator it was given by reference
-    (script/script.cpp:283-333): behind the opcode byte and behind a complete length field -/
-def failedGetOpPc (pc : Bytes) : Bytes :=
-  match pc with
-  | [] => []
-  | b :: pc1 =>
-    let opcode := b.toNat
-    if opcode < Op.OP_PUSHDATA1 then pc1
-    else if opcode = Op.OP_PUSHDATA1 then (if pc1.length < 1 then pc1 else pc1.drop 1)
-    else if opcode = Op.OP_PUSHDATA2 then (if pc1.length < 2 then pc1 else pc1.drop 2)
-    else if opcode = Op.OP_PUSHDATA4 then (if pc1.length < 4 then pc1 else pc1.drop 4)
-    else pc1
-
-/-- `fn_step`: new state and whether the step was performed.
-    A refused step ("at end of script") changes nothing.  A failed operation leaves `pc` behind the
-    instruction that failed (see the header).  When the failure is a C++ exception (script number
-    overflow / non-minimal number, `popstack` on an empty stack: caught in `Instance::step`), the
-    exception passes the block that pops the history entries (interpreter.cpp:154-163), so the entry
-    pushed for the failed instruction stays on the history vectors as well.
-    What else a failing operation may have modified before it failed (stack items popped, operation
-    count) is not represented: those fields keep their old values. -/
+/-- `fn_step`: new state and whether the step was performed.  A refused step ("at end of script") and a
+    failed one (error return or C++ exception: the saved state is restored and the history entry popped,
+    interpreter.cpp:153-183) change nothing. -/
 def fnStep (cx : Ctx) (tc : TapCtx) (e : IEnv) : IEnv × Bool :=
   if e.done then (e, false)
   else match stepSession cx tc e with
     | .ok e' => (e', true)
-    | .error err =>
-      match e.tce with
-      | some _ => (e, false)
-      | none =>
-        match getOp e.pc with
-        | some g =>
-          (match err with
-           | .exc _ => ({ e with pc := g.rest, history := e.snapshot :: e.history }, false)
-           | _ => ({ e with pc := g.rest }, false))
-        | none => ({ e with pc := failedGetOpPc e.pc }, false)
+    | .error _ => (e, false)
 
 end Btcdeb.Model
